@@ -189,6 +189,56 @@ fn main() {
         for d in &diags { println!("diag {:?} {:?} syntax={}", d.span, d.msg, d.syntax); }
         return;
     }
+    if args.len() >= 3 && args[1] == "digest" {
+        // one line per (input, predicate pattern, entry): a hash of the printed tree and the diagnostics;
+        // used to compare two builds of the same parser (E13 rewrite identity)
+        use std::hash::{Hash, Hasher};
+        let maxlen: usize = args[2].parse().unwrap_or(3);
+        let mut total = std::collections::hash_map::DefaultHasher::new();
+        let mut count: u64 = 0;
+        for len in 0..=maxlen {
+            let mut idx = vec![0usize; len];
+            'inputs: loop {
+                let s: String = idx.iter().map(|&i| alphabet[i]).collect();
+                for pat0 in 0..(2 * npat) {
+                    let pat = (pat0 % npat) | ((pat0 / npat) << 16);
+                    for which in 0..nentries {
+                        PATTERN.store(pat, Ordering::SeqCst);
+                        CALLS.store(0, Ordering::SeqCst);
+                        PROGRESS.fetch_add(1, Ordering::SeqCst);
+                        let s2 = s.clone();
+                        let r = std::panic::catch_unwind(move || {
+                            let mut diags = vec![];
+                            let parser = Parser::new(&s2, &mut diags);
+                            let cst = match which { @ENTRIES@ _ => parser.parse(&mut diags) };
+                            let mut out = format!("{}", cst);
+                            for d in &diags { out.push_str(&format!("|{:?}{:?}{}", d.span, d.msg, d.syntax)); }
+                            out
+                        });
+                        let text = match r { Ok(t) => t, Err(_) => "PANIC".to_string() };
+                        let mut h = std::collections::hash_map::DefaultHasher::new();
+                        text.hash(&mut h);
+                        let hv = h.finish();
+                        (s.as_str(), pat, which, hv).hash(&mut total);
+                        count += 1;
+                        if args.len() >= 4 && args[3] == "lines" { println!("{}\t{}\t{}\t{:016x}", s, pat, which, hv); }
+                    }
+                }
+                let mut k = len;
+                loop {
+                    if k == 0 { break 'inputs; }
+                    k -= 1;
+                    idx[k] += 1;
+                    if idx[k] < alphabet.len() { break; }
+                    idx[k] = 0;
+                    if k == 0 { break 'inputs; }
+                }
+                if len == 0 { break; }
+            }
+        }
+        println!("DIGEST\t{}\t{:016x}", count, total.finish());
+        return;
+    }
     let maxlen: usize = args.get(1).and_then(|s| s.parse().ok()).unwrap_or(4);
     let budget: u64 = args.get(2).and_then(|s| s.parse().ok()).unwrap_or(2_000_000);
     let mut count: u64 = 0;
